@@ -52,7 +52,55 @@ func genBatchRetry(r *rng, thorough bool, emit func(FlowScenario)) {
 	}
 }
 
+// long paths: a self-loop / a two-node cycle taken many more times than any plausible step limit before it exits
+func genLongLoops(r *rng, thorough bool, emit func(FlowScenario)) {
+	t := &tokGen{r: r}
+	lens := []int{1100}
+	if thorough {
+		lens = []int{1100, 2600}
+	}
+	leaf := LeafCfg{Retryable: true, Budget: 1, Fb: "pass", PrepS: "direct", ExecS: "direct", PostS: "direct"}
+	for _, n := range lens {
+		for _, two := range []bool{false, true} {
+			a, b := leaf, leaf
+			sc := FlowScenario{Kind: "canceled", Ctx0: "live", LeafScripts: []LeafScript{}, BatchScripts: []BatchScript{}}
+			sc.Nodes = []NodeDef{{ID: 0, Leaf: &a}, {ID: 1, Leaf: &b}}
+			ops := []Conn{{Src: 0, Action: "again", Dst: ip(0)}, {Src: 0, Action: "out", Dst: ip(1)}}
+			if two {
+				ops = []Conn{{Src: 0, Action: "again", Dst: ip(1)}, {Src: 1, Action: "again", Dst: ip(0)}, {Src: 1, Action: "out", Dst: nil}}
+			}
+			sc.Nodes = append(sc.Nodes, NodeDef{ID: 2, Flow: &FlowDef{Start: ip(0), Ops: ops}})
+			t.next, t.errN = r.intn(30), 0
+			for v := 0; v < n; v++ {
+				post := "=again"
+				if v == n-1 && !two {
+					post = "=out"
+				}
+				s := t.leafScript(0, v, true, 1, 1, true, post)
+				s.Prep, s.Exec = "t1", []string{"t2"} // small constant payloads: these scenarios are long enough
+				sc.LeafScripts = append(sc.LeafScripts, s)
+				if two {
+					post = "=again"
+					if v == n-1 {
+						post = "=out"
+					}
+					s2 := t.leafScript(1, v, true, 1, 1, true, post)
+					s2.Prep, s2.Exec = "t1", []string{"t2"}
+					sc.LeafScripts = append(sc.LeafScripts, s2)
+				}
+			}
+			if !two {
+				s := t.leafScript(1, 0, true, 1, 1, true, "=done")
+				sc.LeafScripts = append(sc.LeafScripts, s)
+			}
+			sc.Steps = []Step{{Run: ip(2)}}
+			emit(sc)
+		}
+	}
+}
+
 func genC03(r *rng, thorough bool, emit func(FlowScenario)) {
+	genLongLoops(r, thorough, emit)
 	t := &tokGen{r: r}
 	// exhaustive: 5^6 graphs x 8 action patterns (sampled in quick)
 	total := 15625 * 8
